@@ -550,6 +550,15 @@ func SetSlice(dest reflect.Value, objects interface{}) error {
 }
 
 func ConvertSliceValueType(destTyp reflect.Type, v reflect.Value) (reflect.Value, error) {
+	return convertSlice(destTyp, v, nil)
+}
+
+// converting identifies a generic list or map that is being converted to a declared type: a
+// container that contains itself cannot be converted element by element (the conversion would
+// follow the cycle until the stack is exhausted), it is left out with an error
+type converting map[[2]uintptr]bool
+
+func convertSlice(destTyp reflect.Type, v reflect.Value, active converting) (reflect.Value, error) {
 	if destTyp == v.Type() {
 		return v, nil
 	}
@@ -561,6 +570,18 @@ func ConvertSliceValueType(destTyp reflect.Type, v reflect.Value) (reflect.Value
 
 	if v.Len() <= 0 {
 		return _zeroValue, nil
+	}
+
+	if k == reflect.Slice {
+		key := [2]uintptr{v.Pointer(), uintptr(v.Len())}
+		if active[key] {
+			return _zeroValue, newCodecError("ConvertSliceValueType", "a list that contains itself can't be converted to %v", destTyp)
+		}
+		if active == nil {
+			active = make(converting)
+		}
+		active[key] = true
+		defer delete(active, key)
 	}
 
 	elemKind := destTyp.Elem().Kind()
@@ -591,7 +612,7 @@ func ConvertSliceValueType(destTyp reflect.Type, v reflect.Value) (reflect.Value
 		case elemUintType:
 			sl.Index(i).SetUint(EnsureUint64(itemValue.Interface()))
 		default:
-			SetValue(sl.Index(i), itemValue)
+			setValue(sl.Index(i), itemValue, active)
 		}
 	}
 
@@ -620,6 +641,10 @@ func findField(name string, typ reflect.Type) (int, error) {
 // It will auto check the Ptr pack level and unpack/pack to the right level.
 // It make sure success to set value
 func SetValue(dest, v reflect.Value) {
+	setValue(dest, v, nil)
+}
+
+func setValue(dest, v reflect.Value, active converting) {
 	// check whether the v is a ref holder
 	if v.IsValid() {
 		if h, ok := v.Interface().(*_refHolder); ok {
@@ -711,9 +736,18 @@ func SetValue(dest, v reflect.Value) {
 	case reflect.Map:
 		// a map read without type information is converted to the destination's map type
 		if v.Kind() == reflect.Map && !v.Type().AssignableTo(dest.Type()) {
+			key := [2]uintptr{v.Pointer(), 0}
+			if active[key] {
+				return // a map that contains itself: left out (see converting)
+			}
+			if active == nil {
+				active = make(converting)
+			}
+			active[key] = true
+			defer delete(active, key)
 			m := reflect.MakeMapWithSize(dest.Type(), v.Len())
 			for _, k := range v.MapKeys() {
-				setMapEntry(m, k.Interface(), v.MapIndex(k).Interface())
+				setMapEntryIn(m, k.Interface(), v.MapIndex(k).Interface(), active)
 			}
 			dest.Set(m)
 			return
@@ -721,7 +755,7 @@ func SetValue(dest, v reflect.Value) {
 	case reflect.Slice:
 		// same for a list read without type information
 		if v.Kind() == reflect.Slice && !v.Type().AssignableTo(dest.Type()) {
-			if cv, err := ConvertSliceValueType(dest.Type(), v); err == nil && cv.IsValid() {
+			if cv, err := convertSlice(dest.Type(), v, active); err == nil && cv.IsValid() {
 				dest.Set(cv)
 			}
 			return
